@@ -9,7 +9,7 @@ use crate::{for_both, hx, Ctx, Tier};
 use blsful::*;
 use serde_json::json;
 
-pub const RULE: &str = "per honest tuple (key from E or random, message from the length classes, scheme, group; signed by the reference) the whole perturbation catalogue of the quantifier is applied: sig+kG (k=1,2,r-1), -sig, 2*sig, 3*sig, signature of another message, signature by another key; every single-bit flip of the message (exhaustive for the designated short-message tuple of each cell, 16 sampled flips otherwise), truncate by 1, extend by 0x00, replace by empty; pk of another key, pk+G, -pk; each other scheme label on the same point; VALID variants: (sig+Q)-Q, 2*(sig/2), decode(encode(sig)), key-sum with signature-sum over one message (valid in Basic/PoP, invalid in Aug). Each tuple is decided by Signature::verify, MultiSignature::verify and PublicKeyShare::verify and by the reference CoreVerify; library decision must equal the constructed expectation and the reference (expectation != reference is a harness error). History pass: around every invalid tuple the sequence honest, invalid, invalid, honest is asked through Signature::verify and must answer accept, reject, reject, accept (a decision may depend on the tuple only, not on what was asked before). Distinct by (suite,scheme,entry,pk,sig,msg); all tuples are non-trivial (both points decode, neither is the identity, the pairing equation decides).";
+pub const RULE: &str = "per honest tuple (key from E or random, message from the length classes, scheme, group; signed by the reference) the whole perturbation catalogue of the quantifier is applied: sig+kG (k=1,2,r-1), -sig, 2*sig, 3*sig, signature of another message, signature by another key; every single-bit flip of the message (exhaustive for the designated short-message tuple of each cell, 16 sampled flips otherwise), truncate by 1, extend by 0x00, replace by empty; pk of another key, pk+G, -pk; each other scheme label on the same point; the identity as key, as signature and as both (the pairing equation holds trivially for the last; cell 'identity'); VALID variants: (sig+Q)-Q, 2*(sig/2), decode(encode(sig)), key-sum with signature-sum over one message (valid in Basic/PoP, invalid in Aug). Each tuple is decided by Signature::verify, MultiSignature::verify and PublicKeyShare::verify and by the reference CoreVerify; library decision must equal the constructed expectation and the reference (expectation != reference is a harness error). History pass: around every invalid tuple the sequence honest, invalid, invalid, honest is asked through Signature::verify and must answer accept, reject, reject, accept (a decision may depend on the tuple only, not on what was asked before). Distinct by (suite,scheme,entry,pk,sig,msg); all tuples outside the 'identity' cell are non-trivial (both points decode, neither is the identity, the pairing equation decides).";
 
 pub fn run(ctx: &mut Ctx) {
     for_both!(run_suite, ctx);
@@ -32,7 +32,7 @@ fn run_suite<C: Suite>(ctx: &mut Ctx) {
     let lens: &[usize] = ctx.tier.pick(&[0usize, 1, 8, 33, 257, 5000][..], &[0usize, 1, 8, 31, 32, 33, 128, 257, 4096, 4097, 16385, 70000][..]);
     let exhaustive_len: usize = ctx.tier.pick(8, 32);
     for scheme in SCHEMES {
-        for kind in ["bitflip", "sig", "pk", "msglen", "relabel", "valid"] {
+        for kind in ["bitflip", "sig", "pk", "msglen", "relabel", "valid", "identity"] {
             ctx.require(&format!("{}/{}/{}", C::NAME, scheme.name(), kind));
         }
         let n_keys = ctx.tier.pick(3, edges.len());
@@ -131,6 +131,13 @@ fn one_tuple<C: Suite>(ctx: &mut Ctx, g: u64, scheme: Scheme, kname: &str, sk: &
     push("pk", "pk+G".into(), false, scheme, pk.add(g_pk), sig, msg.clone());
     push("pk", "-pk".into(), false, scheme, pk.neg(), sig, msg.clone());
     push("pk", "2*pk".into(), false, scheme, pk.mul(&two), sig, msg.clone());
+    // the identity in either or both positions: the pairing equation holds trivially for
+    // (O, O) and the reference rejects by key / signature validation (C04 enumerates the
+    // identity at every entry point; here the three tuples take part in the comparison with
+    // the reference like every other tuple)
+    push("identity", "pk=O,sig=O".into(), false, scheme, RPk::<C>::id(), RSig::<C>::id(), msg.clone());
+    push("identity", "pk=O".into(), false, scheme, RPk::<C>::id(), sig, msg.clone());
+    push("identity", "sig=O".into(), false, scheme, pk, RSig::<C>::id(), msg.clone());
     // scheme relabelling of the same point
     for o in scheme.others() {
         push("relabel", format!("as-{}", o.name()), false, o, pk, sig, msg.clone());
